@@ -62,7 +62,7 @@ def run(facts, tr, rep):
         nw += check_word(facts, tr, rep, "C08.RMW", w, keyfn)
     for w in ceiling:
         nw += check_word(facts, tr, rep, "C08.RMW-CEILING", w, keyfn)
-    rep.floor("C08.write-sites", nw, 7)
+    rep.floor("C08.write-sites", nw, 4)       # distinct kinds of writes; identical update sites may be merged into one helper
 
     # try_withdraw: `true` only on the success edge of a subtracting CAS/fetch_update guarded by balance >= amount
     _f0, _t0 = facts, tr
